@@ -45,6 +45,12 @@ ENTRIES = [
     ("latchTsEnd", C, r"let ts = u32::from_be_bytes\(\[packet\[\d+\], packet\[\d+\], packet\[\d+\], packet\[(\d+)\]\]\)", "last timestamp byte"),
     ("latchMarkerOff", C, r"let marker = \(packet\[(\d+)\] & 0x[0-9a-fA-F]+\) != 0;", "offset of the marker byte"),
     ("latchMarkerMask", C, r"let marker = \(packet\[\d+\] & (0x[0-9a-fA-F]+)\) != 0;", "marker bit mask"),
+    # ---- C18 / the documented rules (doc comment of RtpCandidateState): order and thresholds as written there
+    ("docRuleMarkerIdx", C, r"/// (\d+)\. \*\*Marker flush\*\*", "position of the marker rule in the doc comment"),
+    ("docRuleRunIdx", C, r"/// (\d+)\. \*\*Consecutive dominance\*\*", "position of the run rule in the doc comment"),
+    ("docRuleTimeoutIdx", C, r"/// (\d+)\. \*\*Timeout fallback\*\*", "position of the timeout rule in the doc comment"),
+    ("docRule2MinConsecutive", C, r"\*\*Consecutive dominance\*\*: a candidate with `consecutive_count >= (\d+)`", "doc comment: run threshold"),
+    ("docRule2MinTotal", C, r"that also has accumulated `>= (\d+)` total packets", "doc comment: total threshold of rule 2"),
     ("probTotalBits", C, r"struct RtpProbationState \{[^}]*?total_packets: u(\d+),", "width of total_packets"),
     ("probMaxBits", C, r"struct RtpProbationState \{[^}]*?max_packets: u(\d+),", "width of max_packets"),
     ("candCountBits", C, r"struct RtpCandidateState \{[^}]*?packet_count: u(\d+),", "width of packet_count"),
